@@ -140,6 +140,7 @@ impl CliCase {
             allow_buffer: self.allow_buffer,
             prior_calls: 0,
             build_style: 0,
+            bufsize: None,
         })
     }
 
